@@ -139,10 +139,10 @@ def cone(vfile: str) -> list[str]:
         if not p.exists():
             continue
         txt = p.read_text()
-        for m in re.finditer(r"From\s+TI\s+Require\s+(?:Import|Export)?\s*([^.]*(?:\.[A-Za-z_][\w.]*)*)\.\s", txt):
+        for m in re.finditer(r"From\s+TI\s+Require\s+(?:Import\s+|Export\s+)?(.+?)\.(?:\s|$)", txt, flags=re.S):
             for mod in m.group(1).split():
                 todo.append(mod.replace(".", "/") + ".v")
-        for m in re.finditer(r"Require\s+(?:Import|Export)?\s+((?:TI\.[\w.]+\s*)+)\.", txt):
+        for m in re.finditer(r"(?<!TI\s)Require\s+(?:Import\s+|Export\s+)?((?:TI\.[\w.]+\s*)+)\.(?:\s|$)", txt):
             for mod in m.group(1).split():
                 todo.append(mod[3:].replace(".", "/") + ".v")
     return seen
@@ -225,6 +225,10 @@ def check_props(pid: str, obl: Obligations, allowed_axioms=(), extra_targets=())
         rc, out = make([f"props/{pid}.vo"] + list(extra_targets))
     info["build_output_tail"] = out[-3000:]
     files = cone(rel)
+    for t in extra_targets:
+        for f in cone(t[:-1]):
+            if f not in files:
+                files.append(f)
     info["cone"] = files
     bad = audit_cone(files)
     obl.add(f"audit:{pid}:no Admitted/Axiom/Parameter/unchecked in cone ({len(files)} files)", not bad, "; ".join(bad))
